@@ -27,6 +27,19 @@ theorem source_finish_keeps_pending : outsCfg.earlyRelease = false := rfl
 theorem tie_compactReleaseSites : Generated.C02.compactPendingReleaseSites = Code.releaseSites := rfl
 theorem tie_finishOutput : Generated.C02.finishOutputCalls = Code.finishOutput := rfl
 theorem tie_openOutput : Generated.C02.openOutputCalls = Code.openOutput := rfl
+theorem tie_pendingMarkSites : Generated.C02.pendingMarkSites = Code.pendingMarkSites := rfl
+
+/-- the model's steps change `pending` exactly where the code's sites are: only `open` adds a mark and only
+`cleanup` removes one (every other action leaves the set as it is) -/
+theorem pending_changes_only_in_open_and_cleanup {s s' : St} (a : Act) (hs : step outsCfg s a = some s')
+    (ha : a ≠ .open) (hc : a ≠ .cleanup) : s'.pending = s.pending := by
+  have he := source_finish_keeps_pending
+  cases a <;> simp only [step, he] at hs <;> (try split at hs) <;> (try split at hs) <;>
+    first
+    | (cases hs; done)
+    | (cases hs; rfl)
+    | (cases hs; simp; done)
+    | contradiction
 
 section
 variable {tables : List Nat} {nf : Nat} (h0 : ∀ f, f ∈ tables → f < nf)
